@@ -408,7 +408,104 @@ namespace vf
    template< typename Rule >
    using mi_control = typename tao::pegtl::must_if< verrors, lcontrol, false >::template control< Rule >;
 
+   // ------------------------------------------------------------------ states and switchable action classes (C13)
+
+   struct ostate
+   {
+      static constexpr int id = 9;
+   };
+
+   template< typename... States >
+   struct first_sid
+   {
+      static constexpr int value = 0;
+   };
+
+   template< typename S, typename... States >
+   struct first_sid< S, States... >
+   {
+      static constexpr int value = std::decay_t< S >::id;
+   };
+
+   // logging state: constructor / success / destructor
+   template< int ID >
+   struct vstate
+   {
+      static constexpr int id = ID;
+
+      vstate()
+      {
+         verif_event( EV_STATE_CTOR, ID, 0, 0 );
+      }
+
+      template< typename ParseInput, typename... States >
+      explicit vstate( const ParseInput& in, States&&... /*unused*/ )
+      {
+         verif_event( EV_STATE_CTOR, ID, in.byte(), first_sid< States... >::value );
+      }
+
+      vstate( const vstate& ) = delete;
+      vstate& operator=( const vstate& ) = delete;
+
+      ~vstate()
+      {
+         verif_event( EV_STATE_DTOR, ID, 0, 0 );
+      }
+
+      template< typename ParseInput, typename... States >
+      void success( const ParseInput& in, States&&... /*unused*/ )
+      {
+         verif_event( EV_STATE_SUCCESS, ID, in.byte(), first_sid< States... >::value );
+      }
+   };
+
+   // action class that reports which state it was handed and which action class it is (Tag)
+   template< typename Rule, int Tag, typename = void >
+   struct act_s : nothing< Rule > {};
+   template< typename Rule, int Tag >
+   struct act_s< Rule, Tag, std::enable_if_t< ( rid< Rule >::value >= 0 ) > >
+   {
+      template< typename... States >
+      static void apply0( States&&... /*unused*/ )
+      {
+         verif_event( EV_APPLY0, rid< Rule >::value, first_sid< States... >::value, Tag );
+      }
+   };
+
+   template< typename Rule, apply_mode A, rewind_mode M, template< typename... > class Action, template< typename... > class Control, typename Input = eager_in >
+   inline void run_st( const char* b, unsigned long n, unsigned long start, unsigned long* out )
+   {
+      Input in( b, b + n, "" );
+      in.bump_in_this_line( start );
+      ostate os;
+      out[ 2 ] = 0;
+      out[ 3 ] = 0;
+      out[ 6 ] = 0;
+      out[ 7 ] = 0;
+      try {
+         out[ 0 ] = Control< Rule >::template match< A, M, Action, Control >( in, os );
+      }
+      catch( const verif_exc& e ) {
+         out[ 0 ] = 2;
+         out[ 2 ] = e.id;
+         out[ 3 ] = e.byte;
+         out[ 6 ] = e.line;
+         out[ 7 ] = e.column;
+      }
+      catch( const foreign_exc& e ) {
+         out[ 0 ] = 3;
+         out[ 2 ] = e.id;
+      }
+      out[ 1 ] = in.byte();
+      out[ 4 ] = in.line();
+      out[ 5 ] = in.column();
+   }
+
 }  // namespace vf
+
+#define VF_WRAP_ST( name, ... ) \
+   extern "C" __attribute__( ( noinline ) ) void name( const char* b, unsigned long n, unsigned long s, unsigned long* o ) { vf::run_st< __VA_ARGS__ >( b, n, s, o ); }
+
 
 
 
